@@ -40,7 +40,7 @@ def shim():
         return None
 
 
-def run_child(fn, directory, fault=None, urandom_seed=0, wall_timeout=120):
+def run_child(fn, directory, fault=None, urandom_seed=0, wall_timeout=45):
     """Forks a compiler process that runs fn() (which must return something
     JSON-able) with the given fault armed.
 
@@ -165,11 +165,15 @@ def _run_child(lib, fn, directory, fault, urandom_seed, wall_timeout):
             left = deadline - time.time()
 
             if left <= 0:
+                # The compiler process does not come back (seen: sqlite
+                # spinning in walTryBeginRead after an injected I/O error
+                # on the -shm file).  The driver kills it, as a user would.
                 os.kill(pid, signal.SIGKILL)
                 os.waitpid(pid, 0)
 
-                raise HarnessError('compiler process exceeded {} s'.format(
-                    wall_timeout))
+                return {'status': 'timeout', 'payload': None, 'calls': None,
+                        'ticks': None, 'fired': 1,
+                        'wall_timeout': wall_timeout}
 
             ready, _, _ = select.select([read_fd], [], [], min(left, 5))
 
